@@ -7,5 +7,5 @@ for id in $IDS; do
   s=$(date +%s); out=$(./check $id $TIER 2>&1); rc=$?; e=$(date +%s)
   echo "rc=$rc t=$((e-s))s $(echo "$out" | grep "^$id $TIER:" | tail -1)"
   mkdir -p evidence_$TIER; cp evidence/$id.json evidence_$TIER/$id.json 2>/dev/null
-  echo "$out" | grep "^VIOLATION\|^KNOWN-FINDING\|^HARNESS-ERROR" | head -5
+  echo "$out" | grep "^VIOLATION\|^KNOWN-FINDING\|^HARNESS-ERROR\|^NOTE" | head -5
 done
